@@ -81,11 +81,72 @@ def r21(facts, res):
         res.ok(R, 'invalidate-on-merge', loc_of(b, mb), 'a changing merge discards the closed form of exactly the merged state and bumps the work counter (%d paths)' % seen_true)
 
 
+def r22_search_call(facts, res, b, wb, is_iseq):
+    """exact-before-weak when the exact search is an iterator search (find/position/any with a closure comparing item sets): the
+    search call dominates the weak-compatibility test, and no path on which the search found an equal candidate reaches it"""
+    R = 'R2.2'
+    loops = b.loops()
+    sites = []
+    for c in facts.closures_of(b):
+        if not [1 for bb, t in c.calls_named('eq') + c.calls_named('ne') if is_iseq(t)]:
+            continue
+        for nm in ('find', 'position', 'any', 'find_map', 'rfind', 'rposition'):
+            for bb, t in b.calls_named(nm):
+                l = op_local(t['args'][1]) if len(t['args']) > 1 else None
+                if any(kind == 'stmt' and 'agg' in rv and isinstance(rv['agg'], dict) and rv['agg'].get('closure') == c.path for _bb, kind, rv in b.defs().get(l, ())):
+                    sites.append((bb, nm, c))
+    if len(sites) != 1:
+        res.lost(R, 'expected one Itemset == comparison (in a loop or in one iterator search) in pager_stategraph, found %d' % len(sites))
+        return
+    sb, nm, c = sites[0]
+    # the closure answers "equal": its result is the comparison itself
+    cps = Walker(c, facts, max_paths=64).run()
+    if not cps or not all(p.end[0] == 'return' and p.end[1][0] == 'bin' and p.end[1][1] == 'Eq' for p in cps):
+        res.lost(R, 'the closure of the exact search does not simply answer whether the candidate equals the new item set')
+        return
+    probs = []
+    if not b.dominates(sb, wb):
+        probs.append('the weak-compatibility test can be reached without running the exact search')
+    outer = sorted((h for h in loops if sb in loops[h]), key=lambda h: len(loops[h]))
+    oh = outer[0] if outer else None
+    w = widening_walker(b, facts)
+    w.widen_headers = set(loops) - ({oh} if oh is not None else set())
+    w.widen_assigned = {x: loop_assigned(b, x) for x in w.widen_headers}
+    ps = [p for p in w.run(sb, stop=lambda x: x == wb or x == oh) if p.end == ('stop', wb)]
+    if w.overflow:
+        res.lost(R, 'path explosion between the exact search and the weak-compatibility test')
+        return
+    for p in ps:
+        notfound = False
+        for cd, v in p.conds:
+            if term_has(cd, lambda x: isinstance(x, tuple) and x and x[0] == 'call' and x[1].endswith('::' + nm) and 'iter' in x[1]):
+                if cd[0] == 'discr' and v == 0:
+                    notfound = True
+                elif cd[0] == 'discr' and isinstance(v, tuple) and v[0] == 'ne' and 1 in v[1]:
+                    notfound = True
+                elif is_call(cd, 'is_none') and v == 1 or is_call(cd, 'is_some') and v == 0:
+                    notfound = True
+                elif is_call(cd, nm) and nm == 'any' and v == 0:
+                    notfound = True
+        if not notfound:
+            probs.append('after an exactly equal candidate is found, weak compatibility is still tried')
+            break
+    if not ps:
+        probs.append('the weak-compatibility test is not reachable from the exact search')
+    if probs:
+        res.bad(R, 'exact-before-weak', loc_of(b, wb), '; '.join(probs))
+    else:
+        res.ok(R, 'exact-before-weak', loc_of(b, wb), 'all candidates are compared with == first (Iterator::%s); weak compatibility is tried only when none is equal' % nm)
+
+
 def r22(facts, res):
     R = 'R2.2'
     b = pager(facts, R)
     wc = b.calls_named('weakly_compatible')
-    eqs = [(bb, t) for bb, t in b.calls_named('eq') if 'Itemset' in (callee_of(t).get('self_ty') or '') + ' '.join(callee_of(t)['args'])]
+    is_iseq = lambda t: 'Itemset' in (callee_of(t).get('self_ty') or '') + ' '.join(callee_of(t)['args'])
+    eqs = [(bb, t) for bb, t in b.calls_named('eq') + b.calls_named('ne') if is_iseq(t)]
+    if len(wc) == 1 and not eqs:
+        return r22_search_call(facts, res, b, wc[0][0], is_iseq)
     if len(wc) != 1 or len(eqs) != 1:
         res.lost(R, 'expected one weakly_compatible and one Itemset == comparison in pager_stategraph (%d / %d)' % (len(wc), len(eqs)))
         return
@@ -358,6 +419,12 @@ def r28(facts, res):
                 cidx = ct[2][1] if (ct[0] == 'call' and ct[1].endswith(('::index', '::index_mut'))) else None
                 if kidx is None or cidx is None or strip_conv(cidx) == strip_conv(kidx):
                     okc = True
+        if not okc and kidx is not None:
+            # the index went through a loop-carried Option local: then *every* store of Some(x) into that local must sit under a
+            # successful weakly_compatible test of state x (an invariant of the local, whatever loop shape fills it)
+            k0 = strip_conv(kidx)
+            if k0[0] == 'field' and k0[1][0] == 'downcast' and k0[1][1][0] == 'widen':
+                okc = some_only_under_wc(facts, b, k0[1][1][3], loops)
         if not okc:
             bad = 'weakly_merge is reached on a path (blocks %s) on which the state merged into was not found weakly compatible with the new item set' % p.blocks[-10:]
             break
@@ -365,6 +432,54 @@ def r28(facts, res):
         res.bad(R, 'merge-only-compatible', loc_of(b, mb), bad)
     else:
         res.ok(R, 'merge-only-compatible', loc_of(b, mb), 'every path to weakly_merge has a successful weakly_compatible test of the state merged into (%d paths)' % len(ps))
+
+
+def some_only_under_wc(facts, b, m, loops):
+    """every whole assignment to local `m` is None, or Some(x) on paths that have seen weakly_compatible(states[x], ..) come out true"""
+    n = 0
+    for bb, kind, rv in b.defs().get(m, ()):
+        if kind != 'stmt':
+            return False
+        for _ in range(6):      # `m = move tmp` with `tmp = Some(x)`: look at what the temporary holds
+            ol = op_local(rv['use']) if 'use' in rv else None
+            ds = b.defs().get(ol, ()) if ol is not None and not b.name_of(ol) else ()
+            if len(ds) == 1 and ds[0][1] == 'stmt':
+                bb, kind, rv = ds[0]
+            else:
+                break
+        if 'agg' in rv and isinstance(rv['agg'], dict) and rv['agg'].get('vname') == 'None':
+            continue
+        if not ('agg' in rv and isinstance(rv['agg'], dict) and rv['agg'].get('vname') == 'Some'):
+            return False
+        inl = sorted((h for h in loops if bb in loops[h]), key=lambda h: len(loops[h]))
+        if not inl:
+            return False
+        h = inl[0]
+        w = widening_walker(b, facts)
+        w.widen_headers = set(loops) - {h}
+        w.widen_assigned = {x: loop_assigned(b, x) for x in w.widen_headers}
+        after = set(b.succs(bb))
+        ps = [p for p in w.run(h, stop=lambda x: x in after or x not in loops[h]) if p.blocks and p.blocks[-1] == bb]
+        if w.overflow or not ps:
+            return False
+        for p in ps:
+            # the operand as it stands at the end of the storing block (the temporary holding x is filled in that block)
+            x = strip_conv(w.as_value(p.env, w.operand(p.env, rv['ops'][0])))
+            if rv['ops'][0].get('move') is not None and x[0] == 'uninit':
+                # moved-out temporaries read back as themselves: take the payload of the stored aggregate instead
+                st = w.read_key(p.env, (m, ()))
+                x = strip_conv(st[4][0]) if st[0] == 'variant' and st[4] else x
+            ok = False
+            for c, v in p.conds:
+                if is_call(c, 'weakly_compatible') and v == 1:
+                    ct = strip_ref(c[2][0])
+                    cidx = ct[2][1] if (ct[0] == 'call' and ct[1].endswith(('::index', '::index_mut'))) else None
+                    if cidx is not None and strip_conv(cidx) == x:
+                        ok = True
+            if not ok:
+                return False
+        n += 1
+    return n > 0
 
 
 def strip_conv(t):
